@@ -824,11 +824,16 @@ def renderParams : List (Param F) → List Byte
   | [p] => p.before ++ (p.tok ++ (p.after ++ [41]))
   | p :: q :: ps => p.before ++ (p.tok ++ (p.after ++ 44 :: renderParams (q :: ps)))
 
+/-- an attribute that reports nothing adds nothing to what the attributes report -/
+theorem attrSev_null (a : AttrD) (rest : Sev) : attrSev a .null rest = rest := by
+  unfold attrSev
+  cases a.derived <;> simp [Sev.toInt]
+
 theorem readAttrs_params (env : Env F) (strict : Bool) (ps : List (Param F)) (hne : ps ≠ [])
     (hok : ∀ p ∈ ps, ParamOK env strict p) :
     ∀ (l : List Byte) (c : Byte) (sk : Bool) (rest : List Byte),
       ∃ sk', readAttrs env strict (ps.map (·.a)) .null c (G l (renderParams ps ++ rest) sk) =
-        .ok ⟨.null, ps.map (·.v), G ((renderParams ps).reverse ++ l) rest sk'⟩ := by
+        .ok ⟨.null, ps.map (·.v), G ((renderParams ps).reverse ++ l) rest sk', .null⟩ := by
   induction ps with
   | nil => exact absurd rfl hne
   | cons p qs ih =>
@@ -847,7 +852,7 @@ theorem readAttrs_params (env : Env F) (strict : Bool) (ps : List (Param F)) (hn
       rw [e2]
       simp only [hred, Bool.false_eq_true, if_false, hr, bind, Except.bind, pure, Except.pure]
       rw [shiftInto_good c _ 41 rest sk' (by decide)]
-      simp [missingCheck, defaults, Sev.toInt, htok]
+      simp [missingCheck, defaults, Sev.toInt, htok, attrSev_null]
     | cons q qs' =>
       obtain ⟨sk1, hr⟩ := hread (p.before.reverse ++ l) sk 44 (renderParams (q :: qs') ++ rest) (Or.inl rfl)
       obtain ⟨sk', hrec⟩ := ih (by simp) (fun x hx => hok x (by simp [hx]))
@@ -869,7 +874,7 @@ theorem readAttrs_params (env : Env F) (strict : Bool) (ps : List (Param F)) (hn
       have e5 : (Sev.null.toInt ≤ Sev.usermsg.toInt) = False := by decide
       simp only [e3, e4, e5, Bool.false_eq_true, if_false]
       rw [hrec]
-      simp [htok]
+      simp [htok, attrSev_null]
 
 theorem renderParams_cons (p : Param F) (qs : List (Param F)) :
     renderParams (p :: qs) = p.before ++ renderParams ({ p with before := [] } :: qs) := by
@@ -880,7 +885,7 @@ theorem renderParams_cons (p : Param F) (qs : List (Param F)) :
 theorem instSTEPread_params (env : Env F) (strict : Bool) (ps : List (Param F)) (hne : ps ≠ [])
     (hok : ∀ p ∈ ps, ParamOK env strict p) (l : List Byte) (sk : Bool) (rest : List Byte) :
     ∃ sk', instSTEPread env strict (ps.map (·.a)) (G l (40 :: (renderParams ps ++ rest)) sk) =
-      .ok ⟨.null, ps.map (·.v), G ((40 :: renderParams ps).reverse ++ l) rest sk'⟩ := by
+      .ok ⟨.null, ps.map (·.v), G ((40 :: renderParams ps).reverse ++ l) rest sk', .null⟩ := by
   cases ps with
   | nil => exact absurd rfl hne
   | cons p qs =>
